@@ -620,3 +620,42 @@ SPECS += [
          consts={"tools.prepare(data, self._output_info, report_conversion=True)": ("(data, (none : Option Unit))", "Tuple[Val,Opt[Unit]]")},
          locals={"xdata": "Val", "conv": "Opt[Unit]", "data": "Val", "new_time": "Time"}, props=["C13", "C02", "C01"]),
 ]
+
+
+# ---- tools/connect_helper.py : metadata composed by transfer rules (C06) ---------------------------------------------
+# an Info is read as (time, grid, meta dict by key id; key 0 = "time", 1 = "grid"); a rule is (kind, name-or-field, fields,
+# value) with kind 0 = FromInput, 1 = FromOutput, 2 = FromValue; MissingInfoError is the "other" error of the translation
+IMETA = "Dict[Obj,Opt[Obj]]"
+RULE = "Tuple[Int,Obj,List[Obj],Opt[Obj]]"
+INFOS3 = "Dict[Obj,Opt[Tuple[Opt[Obj],Opt[Obj],Dict[Obj,Opt[Obj]]]]]"
+TRANSFER = {"lean": "transfer_fields", "stmt": True, "param_updates": ["info_time", "info_grid", "info_meta"]}
+SPECS += [
+    dict(lean="transfer_fields", path="tools/connect_helper.py", qual="_transfer_fields", group="Rules",
+         params={"fields": "List[Obj]"}, ignore_params=["source_info", "target_info"],
+         extra_params={"s_time": "Opt[Obj]", "s_grid": "Opt[Obj]", "s_meta": IMETA, "t_time": "Opt[Obj]", "t_grid": "Opt[Obj]", "t_meta": IMETA},
+         mut_params=["t_time", "t_grid", "t_meta"], ret="Unit",
+         alias={"source_info.time": "s_time", "source_info.grid": "s_grid", "source_info.meta": "s_meta",
+                "target_info.time": "t_time", "target_info.grid": "t_grid", "target_info.meta": "t_meta"},
+         consts={"'time'": ("(0 : Nat)", "Obj"), "'grid'": ("(1 : Nat)", "Obj")}, calls={"copy.copy": "id"}, props=["C06"]),
+]
+
+INFO3 = "Tuple[Opt[Obj],Opt[Obj],Dict[Obj,Opt[Obj]]]"
+SPECS += [
+    dict(lean="ConnectHelper__apply_rules", path="tools/connect_helper.py", qual="ConnectHelper._apply_rules", group="Rules",
+         fields={"in_infos": INFOS3, "out_infos": INFOS3}, params={"rules": "List[" + RULE + "]"}, ret="Unit", return_unit=["info"],
+         init={"info_time": ("(none : Option Nat)", "Opt[Obj]"), "info_grid": ("(none : Option Nat)", "Opt[Obj]"),
+               "info_meta": ("([(2, some 3)] : List (Nat × Option Nat))", IMETA)},   # `Info(time=None, grid=None)`: units "" (id 3) under key "units" (id 2)
+         mut_params=["info_time", "info_grid", "info_meta"], drop_assign=["info"], rename={"out_info": "in_info"},
+         alias={"info.time": "info_time", "info.grid": "info_grid", "info.meta": "info_meta"},
+         locals={"in_info": "Opt[" + INFO3 + "]"},
+         conds={"isinstance(rule, FromInput)": "(rule.1 = 0)", "isinstance(rule, FromOutput)": "(rule.1 = 1)",
+                "isinstance(rule, FromValue)": "(rule.1 = 2)"},
+         consts={"rule.name": ("rule.2.1", "Obj"), "rule.fields": ("rule.2.2.1", "List[Obj]"), "rule.field": ("rule.2.1", "Obj"),
+                 "rule.value": ("rule.2.2.2", "Opt[Obj]"), "'time'": ("(0 : Nat)", "Obj"), "'grid'": ("(1 : Nat)", "Obj"),
+                 "in_info[0]": ("(in_info.getD (none, none, [])).1", "Opt[Obj]"), "in_info[1]": ("(in_info.getD (none, none, [])).2.1", "Opt[Obj]"),
+                 "in_info[2]": ("(in_info.getD (none, none, [])).2.2", IMETA)},
+         calls={"_transfer_fields": {"lean": "transfer_fields", "args": ["rule.fields", "in_info[0]", "in_info[1]", "in_info[2]",
+                                                                          "info_time", "info_grid", "info_meta"],
+                                     "stmt": True, "param_updates": ["info_time", "info_grid", "info_meta"]}},
+         props=["C06"]),
+]
